@@ -6,6 +6,7 @@ import (
 	"fmt"
 	"os"
 	"testing"
+	"verifharness/internal/watchdog"
 
 	"pgregory.net/rapid"
 
@@ -52,63 +53,66 @@ func storeCfg() txsim.Config {
 func TestC10StoreFaults(t *testing.T) {
 	g := evid.G("TestC10StoreFaults")
 	rapid.Check(t, func(t *rapid.T) {
-		c := g.Begin()
-		defer c.End()
-		s := txsim.NewSim(t, storeCfg(), c)
-		defer s.Close()
-		extra := map[string]func(*rapid.T) bool{
-			"lease": s.ActLease, "release": s.ActRelease, "clock": s.ActClock, "sweep": s.ActSweep,
-		}
-		enums, multi := 0, 0
-		enumerate := func() {
-			// up to three draws to find an operation that writes in this state
-			for try := 0; try < 3; try++ {
-				op := s.DrawStoreFaultOp(t)
-				if op == nil {
-					g.Count("draw:kind-without-instance", 1)
-					continue
-				}
-				r := s.EnumerateStoreFaults(op)
-				if r.RefErr != nil {
-					c.Logf("fault-enum %s [%s]: not enabled (%v)", op.Desc, op.Class, r.RefErr)
-					g.Count("reference-run-failed:"+op.Kind, 1)
-					continue
-				}
-				c.Logf("fault-enum %s [%s]: N=%d %v full-effect-successes=%d", op.Desc, op.Class, r.N, r.Log, r.FullEffect)
-				if r.N == 0 {
-					g.Count("no-writes:"+op.Kind, 1)
-					continue
-				}
-				enums++
-				if r.N >= 2 {
-					multi++
-				}
-				g.Count("enumerations", 1)
-				g.Count("enumerations:"+op.Kind, 1)
-				g.Count("fault-positions", int64(r.Positions))
-				g.Count("fault-positions:"+op.Kind, int64(r.Positions))
-				g.Count(fmt.Sprintf("N=%02d", r.N), 1)
-				g.Count("success-with-failed-write-but-full-effect", int64(r.FullEffect))
-				g.Count("fault-not-reached", int64(r.NotReached))
-				c.Class("op:" + op.Kind)
-				for k := 1; k <= r.N; k++ {
-					c.Class(fmt.Sprintf("pos:%s/%s/k=%s", op.Kind, op.Class, kBucket(k)))
-				}
-				return
+		var c *evid.Case
+		watchdog.Guard(t, "C10", func() string { return caseText(c) }, func() {
+			c = g.Begin()
+			defer c.End()
+			s := txsim.NewSim(t, storeCfg(), c)
+			defer s.Close()
+			extra := map[string]func(*rapid.T) bool{
+				"lease": s.ActLease, "release": s.ActRelease, "clock": s.ActClock, "sweep": s.ActSweep,
 			}
-		}
-		s.Run(t, extra, func() {
-			if enums < 2 && rapid.IntRange(0, 9).Draw(t, "enumerateHere") == 0 {
-				enumerate()
+			enums, multi := 0, 0
+			enumerate := func() {
+				// up to three draws to find an operation that writes in this state
+				for try := 0; try < 3; try++ {
+					op := s.DrawStoreFaultOp(t)
+					if op == nil {
+						g.Count("draw:kind-without-instance", 1)
+						continue
+					}
+					r := s.EnumerateStoreFaults(op)
+					if r.RefErr != nil {
+						c.Logf("fault-enum %s [%s]: not enabled (%v)", op.Desc, op.Class, r.RefErr)
+						g.Count("reference-run-failed:"+op.Kind, 1)
+						continue
+					}
+					c.Logf("fault-enum %s [%s]: N=%d %v full-effect-successes=%d", op.Desc, op.Class, r.N, r.Log, r.FullEffect)
+					if r.N == 0 {
+						g.Count("no-writes:"+op.Kind, 1)
+						continue
+					}
+					enums++
+					if r.N >= 2 {
+						multi++
+					}
+					g.Count("enumerations", 1)
+					g.Count("enumerations:"+op.Kind, 1)
+					g.Count("fault-positions", int64(r.Positions))
+					g.Count("fault-positions:"+op.Kind, int64(r.Positions))
+					g.Count(fmt.Sprintf("N=%02d", r.N), 1)
+					g.Count("success-with-failed-write-but-full-effect", int64(r.FullEffect))
+					g.Count("fault-not-reached", int64(r.NotReached))
+					c.Class("op:" + op.Kind)
+					for k := 1; k <= r.N; k++ {
+						c.Class(fmt.Sprintf("pos:%s/%s/k=%s", op.Kind, op.Class, kBucket(k)))
+					}
+					return
+				}
+			}
+			s.Run(t, extra, func() {
+				if enums < 2 && rapid.IntRange(0, 9).Draw(t, "enumerateHere") == 0 {
+					enumerate()
+				}
+			})
+			enumerate() // always at the end
+			if s.L.F4Hits > 0 {
+				g.KnownHit("F4")
+			}
+			if multi > 0 {
+				c.NonTrivial()
 			}
 		})
-		enumerate() // always at the end
-		if s.L.F4Hits > 0 {
-			g.KnownHit("F4")
-		}
-		if multi > 0 {
-			c.NonTrivial()
-		}
 	})
 }
 
@@ -134,64 +138,75 @@ func TestC10ManagerFaults(t *testing.T) {
 		opts.KnownIndexSwallow = c10KnownIndexSwallow
 	}
 	rapid.Check(t, func(t *rapid.T) {
-		c := g.Begin()
-		defer c.End()
-		m := mgrsim.New(t, "C10", c)
-		defer m.Close()
-		if rapid.Bool().Draw(t, "startUnlocked") {
-			m.OpUnlock(t) // half of the histories do not start locked
-		}
-		enums, multi := 0, 0
-		enumerate := func() {
-			for try := 0; try < 3; try++ {
-				op := m.DrawFaultOp(t)
-				if op == nil {
-					g.Count("draw:kind-without-instance", 1)
-					continue
-				}
-				r := m.EnumerateFaults(t, op, opts)
-				if r.RefErr != nil {
-					c.Logf("fault-enum %s [%s]: reference run failed (%v)", op.Desc, op.Class, r.RefErr)
-					g.Count("reference-run-failed:"+op.Kind, 1)
-					continue
-				}
-				c.Logf("fault-enum %s [%s]: N=%d %v full-effect-successes=%d", op.Desc, op.Class, r.N, r.Log, r.FullEffect)
-				if r.N == 0 {
-					g.Count("no-writes:"+op.Kind, 1)
-					continue
-				}
-				enums++
-				if r.N >= 2 {
-					multi++
-				}
-				g.Count("enumerations", 1)
-				g.Count("enumerations:"+op.Kind, 1)
-				g.Count("fault-positions", int64(r.Positions))
-				g.Count("fault-positions:"+op.Kind, int64(r.Positions))
-				g.Count(fmt.Sprintf("N=%02d", r.N), 1)
-				g.Count("success-with-failed-write-but-full-effect", int64(r.FullEffect))
-				g.Count("fault-not-reached", int64(r.NotReached))
-				g.Count("unissued-cache-residue-ignored", int64(r.ResidueIgnored))
-				for id, n := range r.KnownHits {
-					for i := 0; i < n; i++ {
-						g.KnownHit(id)
-					}
-				}
-				c.Class("op:" + op.Kind)
-				for k := 1; k <= r.N; k++ {
-					c.Class(fmt.Sprintf("pos:%s/%s/k=%s", op.Kind, op.Class, kBucket(k)))
-				}
-				return
+		var c *evid.Case
+		watchdog.Guard(t, "C10", func() string { return caseText(c) }, func() {
+			c = g.Begin()
+			defer c.End()
+			m := mgrsim.New(t, "C10", c)
+			defer m.Close()
+			if rapid.Bool().Draw(t, "startUnlocked") {
+				m.OpUnlock(t) // half of the histories do not start locked
 			}
-		}
-		m.Run(t, mgrWeights, 2, maxSteps, 0, func(op string) {
-			if enums < 2 && op != "init" && rapid.IntRange(0, 7).Draw(t, "enumerateHere") == 0 {
-				enumerate()
+			enums, multi := 0, 0
+			enumerate := func() {
+				for try := 0; try < 3; try++ {
+					op := m.DrawFaultOp(t)
+					if op == nil {
+						g.Count("draw:kind-without-instance", 1)
+						continue
+					}
+					r := m.EnumerateFaults(t, op, opts)
+					if r.RefErr != nil {
+						c.Logf("fault-enum %s [%s]: reference run failed (%v)", op.Desc, op.Class, r.RefErr)
+						g.Count("reference-run-failed:"+op.Kind, 1)
+						continue
+					}
+					c.Logf("fault-enum %s [%s]: N=%d %v full-effect-successes=%d", op.Desc, op.Class, r.N, r.Log, r.FullEffect)
+					if r.N == 0 {
+						g.Count("no-writes:"+op.Kind, 1)
+						continue
+					}
+					enums++
+					if r.N >= 2 {
+						multi++
+					}
+					g.Count("enumerations", 1)
+					g.Count("enumerations:"+op.Kind, 1)
+					g.Count("fault-positions", int64(r.Positions))
+					g.Count("fault-positions:"+op.Kind, int64(r.Positions))
+					g.Count(fmt.Sprintf("N=%02d", r.N), 1)
+					g.Count("success-with-failed-write-but-full-effect", int64(r.FullEffect))
+					g.Count("fault-not-reached", int64(r.NotReached))
+					g.Count("unissued-cache-residue-ignored", int64(r.ResidueIgnored))
+					for id, n := range r.KnownHits {
+						for i := 0; i < n; i++ {
+							g.KnownHit(id)
+						}
+					}
+					c.Class("op:" + op.Kind)
+					for k := 1; k <= r.N; k++ {
+						c.Class(fmt.Sprintf("pos:%s/%s/k=%s", op.Kind, op.Class, kBucket(k)))
+					}
+					return
+				}
+			}
+			m.Run(t, mgrWeights, 2, maxSteps, 0, func(op string) {
+				if enums < 2 && op != "init" && rapid.IntRange(0, 7).Draw(t, "enumerateHere") == 0 {
+					enumerate()
+				}
+			})
+			enumerate()
+			if multi > 0 {
+				c.NonTrivial()
 			}
 		})
-		enumerate()
-		if multi > 0 {
-			c.NonTrivial()
-		}
 	})
+}
+
+// caseText is the history of a case so far (empty before it began).
+func caseText(c *evid.Case) string {
+	if c == nil {
+		return ""
+	}
+	return c.Text()
 }
